@@ -92,6 +92,8 @@ class UnusedTranslator:
             ):
                 for elem in stm.head.elements:
                     self._add_usage(elem.condition)
+            if stm.ast_type == ASTType.Rule and stm.head.ast_type == ASTType.Literal and stm.head.sign != Sign.NoSign:
+                self._add_usage_stm(stm.head)  # `not a :- b.` reads a, it does not define it
             if stm.ast_type == ASTType.Rule and stm.head.ast_type == ASTType.HeadAggregate:
                 for elem in stm.head.elements:  # the condition of such an element is a conditional literal
                     self._add_usage(elem.condition.condition)
